@@ -65,8 +65,24 @@ func NewStackWithData(root map[string]any, originalData any) *Stack {
 	}
 	s.stack = []map[string]any{root}
 	s.pooled = []bool{false}
-	s.rootData = originalData
+	s.rootData = fieldFallback(originalData)
 	return s
+}
+
+// fieldFallback returns the data a lookup falls back to when no scope has the name:
+// the struct the root scope was made from. The entries of a map are the root scope
+// already; kept as a fallback, the caller's map would be read as it is now by the
+// positions that look names up ({{ }}, bound attributes, Get) and not by those that
+// work on the merged scopes (v-if).
+func fieldFallback(data any) any {
+	rv := reflect.ValueOf(data)
+	for depth := 0; rv.Kind() == reflect.Pointer && !rv.IsNil() && depth < ireflect.MaxPointerDepth; depth++ {
+		rv = rv.Elem()
+	}
+	if rv.Kind() == reflect.Map {
+		return nil
+	}
+	return data
 }
 
 // mapPool caches map[string]any allocations to reduce GC pressure.
